@@ -936,14 +936,21 @@ fn get_dictionary_values(
 /// Read the data for a given block
 fn read_block<R: Read + Seek>(mut reader: R, block: &Block) -> Result<Buffer, ArrowError> {
     reader.seek(SeekFrom::Start(block.offset() as u64))?;
-    let body_len = block.bodyLength().to_usize().unwrap();
-    let metadata_len = block.metaDataLength().to_usize().unwrap();
-    let total_len = body_len.checked_add(metadata_len).unwrap();
+    let total_len = block
+        .bodyLength()
+        .to_usize()
+        .zip(block.metaDataLength().to_usize())
+        .and_then(|(body_len, metadata_len)| body_len.checked_add(metadata_len))
+        .ok_or_else(|| {
+            ArrowError::ParseError(format!(
+                "Invalid block lengths: metadata {} body {}",
+                block.metaDataLength(),
+                block.bodyLength()
+            ))
+        })?;
 
-    let mut buf = MutableBuffer::try_from_len_zeroed(total_len)
-        .map_err(|e| ArrowError::MemoryError(e.to_string()))?;
-    reader.read_exact(&mut buf)?;
-    Ok(buf.into())
+    // the lengths come from the file footer: do not reserve them before the data arrives
+    Ok(read_body_bounded(&mut reader, total_len)?.into())
 }
 
 /// Parse an encapsulated message
